@@ -194,6 +194,25 @@ func Switch(thorough bool, expired func() bool, level func(name string, complete
 		}
 	}
 	yield(PacketIn(0, Match(OxmByName("OXM_OF_IN_PORT", false, 1)), nil))
+	// every frame of the packet corpus (all IPv6 extension-header chains, IPv4 options, VLAN tags,
+	// ARP, opaque ethertypes) as packet-in payload, encoded by the reference packet encoder
+	if PktEncoder != nil {
+		seenPk := map[string]bool{}
+		Packets(false, func(p *wire.N) {
+			if p.K != "eth" {
+				return
+			}
+			if v := p.S["VLAN"]; v != nil && v.U["VID"] == 0 {
+				return // priority tags are a known finding of C09: the payload would not compare
+			}
+			b := PktEncoder(p)
+			if len(b) > 400 || seenPk[string(b)] {
+				return
+			}
+			seenPk[string(b)] = true
+			yield(PacketIn(1, Match(OxmByName("OXM_OF_IN_PORT", false, 2)), b))
+		})
+	}
 	// multipart replies, record counts 0..3
 	for _, t := range []struct {
 		typ  uint64
